@@ -754,3 +754,65 @@ func streamKeys(o opts) {
 	m.sample("float64 key: Set(+0.0) then Get(-0.0); uint64 key whose Avalanche hash is exactly 1 stored next to a colliding key")
 	m.write(o.out)
 }
+
+// ------------------------------------------------------------------ read buffer (C11, C19 input path)
+
+const sidRb = 75
+
+// streamRb drives ONE stripe of a real shard's read buffer with whole samples and whole drains and compares the
+// back-pressure flag, the cursors and the exact list of fingerprints replayed into the sketch with ReadBuffer.v.
+func streamRb(o opts) {
+	r := newRand(o.seed, "rb")
+	m := newMeta("rb", o.seed)
+	m.Rule = "sample / drainStripe sequences on one stripe of a real SieveTinyLFU shard's read buffer (fingerprints incl. 0, bursts shorter than, equal to and several times longer than the 64-slot window, so that producers lap the consumer); after each sample the needDrain flag and (tail, head), after each drain the fingerprints handed to the sketch in order and (tail, head) are compared with the ReadBuffer model; non-trivial = trace with a lapped window; distinct by (burst profile)"
+	w := newTraceWriter(o.out, "rb")
+	kioshun.VerifTraceOn(true)
+	defer kioshun.VerifTraceOn(false)
+	for t := 0; t < o.n; t++ {
+		c, err := kioshun.New[int, int](kioshun.Config{MaxSize: 64, ShardCount: 1, EvictionPolicy: kioshun.SieveTinyLFU})
+		must(err)
+		w.T(sidRb, &toks{})
+		kioshun.VerifTakeTrace()
+		lapped := false
+		nops := 3 + r.Intn(8)
+		for i := 0; i < nops; i++ {
+			burst := pick(r, []int{1, 3, 20, 63, 64, 65, 100, 130, 200})
+			if burst > 64 {
+				lapped = true
+			}
+			for j := 0; j < burst; j++ {
+				h := uint64(r.Intn(50))
+				if r.Intn(10) == 0 {
+					h = uint64(r.Int63())
+				}
+				_, need := c.VerifSampleRead(0, h, 0)
+				tl, hd := c.VerifStripeState(0, 0)
+				w.O(ints(1, int64(h)), (&toks{}).B(need).I(int64(tl), int64(hd)))
+			}
+			kioshun.VerifTakeTrace()
+			c.VerifDrainStripe(0, 0)
+			res := &toks{}
+			for _, e := range kioshun.VerifTakeTrace() {
+				if e.Kind == kioshun.VerifEvSample {
+					res.I(e.A)
+					if e.A == 0 {
+						m.violate("C11", fmt.Sprintf("rb trace %d: a zero fingerprint was replayed into the sketch", t), fmt.Sprint(t))
+					}
+				}
+			}
+			tl, hd := c.VerifStripeState(0, 0)
+			if tl != hd {
+				m.violate("C11", fmt.Sprintf("rb trace %d: after a drain with no concurrent producer head=%d tail=%d", t, hd, tl), fmt.Sprint(t))
+			}
+			res.I(-1, int64(tl), int64(hd))
+			w.O(ints(2), res)
+		}
+		c.Close()
+		if lapped {
+			m.nontrivial(fmt.Sprintf("ops%d", nops))
+		}
+	}
+	w.Close()
+	m.Traces, m.Ops = w.traces, w.ops
+	m.write(o.out)
+}
